@@ -24,3 +24,135 @@ pub fn emit(kind: &str, detail: &str) {
         }
     }
 }
+
+/// Instrumented replacement of `std::sync::Mutex` (same API as far as the crate uses it).
+/// Every mutex gets a process-wide number; a process-wide callback sees
+/// `(op, mutex number, type name of the protected value)` with op
+/// 'r' before a blocking acquisition, 'a' after it, 't' after a successful try_lock, 'u' when the guard is dropped.
+pub mod sync {
+    use std::fmt::{Debug, Formatter};
+    use std::ops::{Deref, DerefMut};
+    use std::sync::atomic::{AtomicUsize, Ordering};
+    use std::sync::{LockResult, PoisonError, RwLock, TryLockError, TryLockResult};
+
+    pub type LockHook = Box<dyn Fn(char, usize, &'static str) + Send + Sync>;
+    static LOCK_HOOK: RwLock<Option<LockHook>> = RwLock::new(None);
+    static NEXT_ID: AtomicUsize = AtomicUsize::new(1);
+
+    pub fn set_lock_hook(hook: Option<LockHook>) {
+        if let Ok(mut h) = LOCK_HOOK.write() {
+            *h = hook;
+        }
+    }
+
+    fn emit(op: char, id: usize, class: &'static str) {
+        if let Ok(h) = LOCK_HOOK.read() {
+            if let Some(f) = h.as_ref() {
+                f(op, id, class);
+            }
+        }
+    }
+
+    pub struct Mutex<T> {
+        id: usize,
+        inner: std::sync::Mutex<T>,
+    }
+
+    pub struct MutexGuard<'a, T> {
+        id: usize,
+        inner: std::sync::MutexGuard<'a, T>,
+    }
+
+    impl<T> Mutex<T> {
+        pub fn new(t: T) -> Mutex<T> {
+            Mutex {
+                id: NEXT_ID.fetch_add(1, Ordering::Relaxed),
+                inner: std::sync::Mutex::new(t),
+            }
+        }
+
+        pub fn verif_id(&self) -> usize {
+            self.id
+        }
+
+        pub fn lock(&self) -> LockResult<MutexGuard<'_, T>> {
+            let class = std::any::type_name::<T>();
+            emit('r', self.id, class);
+            let r = self.inner.lock();
+            emit('a', self.id, class);
+            match r {
+                Ok(g) => Ok(MutexGuard { id: self.id, inner: g }),
+                Err(p) => Err(PoisonError::new(MutexGuard {
+                    id: self.id,
+                    inner: p.into_inner(),
+                })),
+            }
+        }
+
+        pub fn try_lock(&self) -> TryLockResult<MutexGuard<'_, T>> {
+            match self.inner.try_lock() {
+                Ok(g) => {
+                    emit('t', self.id, std::any::type_name::<T>());
+                    Ok(MutexGuard { id: self.id, inner: g })
+                }
+                Err(TryLockError::WouldBlock) => Err(TryLockError::WouldBlock),
+                Err(TryLockError::Poisoned(p)) => {
+                    emit('t', self.id, std::any::type_name::<T>());
+                    Err(TryLockError::Poisoned(PoisonError::new(MutexGuard {
+                        id: self.id,
+                        inner: p.into_inner(),
+                    })))
+                }
+            }
+        }
+    }
+
+    impl<T> From<T> for Mutex<T> {
+        fn from(t: T) -> Self {
+            Mutex::new(t)
+        }
+    }
+
+    impl<T: Default> Default for Mutex<T> {
+        fn default() -> Self {
+            Mutex::new(T::default())
+        }
+    }
+
+    impl<T: Debug> Debug for Mutex<T> {
+        fn fmt(&self, f: &mut Formatter<'_>) -> std::fmt::Result {
+            self.inner.fmt(f)
+        }
+    }
+
+    impl<T> Deref for MutexGuard<'_, T> {
+        type Target = T;
+        fn deref(&self) -> &T {
+            self.inner.deref()
+        }
+    }
+
+    impl<T> DerefMut for MutexGuard<'_, T> {
+        fn deref_mut(&mut self) -> &mut T {
+            self.inner.deref_mut()
+        }
+    }
+
+    impl<T> Drop for MutexGuard<'_, T> {
+        fn drop(&mut self) {
+            emit('u', self.id, std::any::type_name::<T>());
+        }
+    }
+
+    impl<T: std::fmt::Display> std::fmt::Display for MutexGuard<'_, T> {
+        fn fmt(&self, f: &mut Formatter<'_>) -> std::fmt::Result {
+            self.inner.fmt(f)
+        }
+    }
+
+    impl<T: Debug> Debug for MutexGuard<'_, T> {
+        fn fmt(&self, f: &mut Formatter<'_>) -> std::fmt::Result {
+            self.inner.fmt(f)
+        }
+    }
+}
